@@ -382,7 +382,7 @@ def gen_cases(ctx):
     """list of (spec, items(ordered), container, n, tags)."""
     rng = ctx.rng('cases')
     cases = []
-    n_models = 8 if ctx.tier == "quick" else 40
+    n_models = 8 if ctx.tier == "quick" else 100
     specs = [make_spec(rng, d=3, kind='str'), make_spec(rng, d=2, kind='int'), make_spec(rng, d=4, kind='str')]
     specs += [make_spec(rng) for _ in range(max(0, n_models - len(specs)))]
     for si, spec in enumerate(specs):
@@ -474,8 +474,8 @@ def run(ctx, lean):
             passed += 1
         results[variant] = (passed, first_bad)
     alive = [v for v in VARIANTS if results[v][1] is None]
+    # no survivor: report the first disagreement of the variant that agreed longest
     chosen = alive[0] if alive else max(VARIANTS, key=lambda v: results[v][0])
-    ctx.refined = chosen if alive else None
     for v in VARIANTS:
         ctx.notes.append(f'variant {VARIANT_NAME[v]} {v}: ' + ('refined by the real code on all cases' if results[v][1] is None
                          else f'first disagreement after {results[v][0]} cases: {results[v][1][0][0]}'))
@@ -596,7 +596,8 @@ def oracle_case(ctx, spec, items, container, n, seed, in_order):
     if cov.ndim == 2 and cov.shape[0] == cov.shape[1]:
         sym = np.max(np.abs(cov - cov.T)) if cov.size else 0.0
         ev = np.linalg.eigvalsh((cov + cov.T) / 2) if cov.size else np.array([0.0])
-        if not (sym <= 1e-10 and ev.min() >= -1e-9):
+        slack = 1e-10 * max(1.0, cond22 / 1e2)
+        if not (sym <= slack and ev.min() >= -10 * slack):
             ctx.fail_input(ep, inp, {'asymmetry': float(sym), 'min eigenvalue': float(ev.min())},
                            'conditional covariance symmetric positive semi-definite', CLS_PSD)
     return checks
@@ -678,7 +679,7 @@ def search(ctx, deep):
                                     ([('c', vc_), ('a', va)], 'series', True), ([('b', float(df['b'].max()) + 1.0)], 'series', True)]:
         ctx.count('search:canonical')
         checks += oracle_case(ctx, CANON_SPEC, it, container, 3, 7, in_order)
-    n_models = 16 if deep else 4
+    n_models = 30 if deep else 4
     specs = [make_spec(rng, d=3, kind='str')] + [make_spec(rng) for _ in range(n_models - 1)]
     ncases = 0
     for spec in specs:
@@ -700,7 +701,7 @@ def search(ctx, deep):
                 checks += oracle_case(ctx, spec, it, container, rng.choice([1, 3, 7]), rng.randrange(2 ** 32), in_order)
     nstat = 0
     if deep:
-        for spec in specs[:10]:
+        for spec in specs[:20]:
             model, df = build(spec)
             labels = spec['labels']
             for sub in rng.sample(subsets(rng, labels), min(3, len(subsets(rng, labels)))):
